@@ -63,6 +63,9 @@ def build_logged(a, log):
     if op == 'rshuffle':
         import numpy as np
         return ds.shuffle(True, rng=np.random.RandomState(a['seed']))
+    if op == 'lshuffle':
+        import numpy as np
+        return ds.shuffle(True, rng=np.random.RandomState(a['seed']), buffer_size=a['bs'])
     if op == 'lfilter':
         pr = U.pred(a['p'])
 
